@@ -124,6 +124,7 @@ pub struct Io {
     cfg: NetCfg,
     pub sent: u64,
     pub delivered: u64,
+    dbg_ctx: HashMap<SocketAddr, qv_core::wire::TxCtx>,
 }
 
 pub struct Sh {
@@ -164,6 +165,7 @@ impl Sh {
                 cfg: net,
                 sent: 0,
                 delivered: 0,
+                dbg_ctx: HashMap::new(),
             }),
             epoch: Instant::now(),
         })
@@ -549,7 +551,13 @@ impl UdpSender for SimSender {
         for chunk in t.contents.chunks(seg) {
             io.sent += 1;
             if verbose {
-                eprintln!("net send t={} {}->{} len={} first={:02x} hdr={:02x?}", now, self.src, t.destination, chunk.len(), chunk[0], &chunk[1..chunk.len().min(12)]);
+                // debugging aid (QV_NETLOG=1): the toy crypto leaves payloads readable
+                let ctx = io.dbg_ctx.entry(self.src).or_insert_with(|| qv_core::wire::TxCtx { dst_cid_len: 8, next_pn: [0; 3] });
+                let frames: Vec<String> = match qv_core::wire::parse_datagram(chunk, ctx) {
+                    Some(pk) => pk.iter().map(|p| format!("{:?}#{}{:?}", p.ty, p.pn, p.frames.iter().map(|f| format!("{:?}", f).chars().take(60).collect::<String>()).collect::<Vec<_>>())).collect(),
+                    None => vec!["?".into()],
+                };
+                eprintln!("net send t={} {}->{} len={} {}", now, self.src, t.destination, chunk.len(), frames.join(" | "));
             }
             let (loss, dup) = (io.cfg.loss_pm, io.cfg.dup_pm);
             if io.rng.chance(loss) {
